@@ -26,6 +26,10 @@ func main() {
 			os.Exit(2)
 		}
 		os.Exit(explain(os.Args[2]))
+	case "allprops":
+		// development aid for the corpus regressions (tools/seedcheck.sh): ONE load of the tree, then the rules of every
+		// property; prints what each property's quick tier would report (known findings left out), writes no evidence
+		os.Exit(allProps())
 	case "renames", "params":
 		// development aid: mechanical renamings applied in memory; every report is a false alarm
 		os.Exit(refactorTest(os.Args[1], os.Args[2:]))
